@@ -68,3 +68,33 @@ def layout(rng):
         out += ext
         exp["ext"] = ext
     return out, exp
+
+
+def hostile_cbor():
+    """CBOR items on which cbor2 fails in unusual ways (exceptions outside its own hierarchy, recursion)"""
+    out = [
+        bytes.fromhex("c48201616161"[:10]),          # tag 4 (decimal fraction) with a text mantissa
+        bytes.fromhex("c4820161"),                   # truncated
+        bytes.fromhex("c482016161"),                 # tag 4 [1, "a"]
+        bytes.fromhex("c5821b7fffffffffffffff01"),   # tag 5 (bigfloat) with a huge exponent
+        bytes.fromhex("c4821b7fffffffffffffff01"),   # tag 4 with a huge exponent
+        bytes.fromhex("d82300"),                     # tag 35 (regexp) wrapping an int
+        bytes.fromhex("d823c680"),                   # tag 35 wrapping tag 6
+        bytes.fromhex("d8256101"),                   # tag 37 (uuid) wrapping text
+        bytes.fromhex("d81e8200"),                   # tag 30 (rational) with one element
+        bytes.fromhex("d81e820100"),                 # tag 30 1/0
+        bytes.fromhex("c1f6"),                       # tag 1 (epoch) wrapping null
+        bytes.fromhex("c074" + "6e6f742d612d646174652d74696d652d7374"),   # tag 0 with a bad date string
+        bytes.fromhex("d81c00"), bytes.fromhex("d81d00"),                   # shared references out of range
+        bytes.fromhex("d9010200"),                   # tag 258 (set) wrapping int
+        bytes.fromhex("f8ff"), bytes.fromhex("f818"), bytes.fromhex("f900"), bytes.fromhex("fb00"),
+        b"\x81" * 1500 + b"\x00",                   # deep arrays
+        b"\xa1" * 1500 + b"\x00",                   # deep maps-as-keys
+        b"\xc6" * 1500 + b"\x00",                   # deep tags
+        b"\x81" * 800 + b"\x00",
+        b"\xa1" * 900 + b"\x00" + b"\x00" * 900,   # maps nested as keys: decodes, fails to re-encode
+        b"\x9f" * 300 + b"\xff" * 300,              # indefinite arrays
+        bytes.fromhex("7f6161ff"), bytes.fromhex("5f4101ff"), bytes.fromhex("bf0001ff"),
+        bytes.fromhex("a2010101 02".replace(" ", "")), bytes.fromhex("a1f90000 00".replace(" ", "")), bytes.fromhex("a18000"),
+    ]
+    return out
